@@ -19,6 +19,15 @@ class AstToSqlVisitor(visitor.NodeVisitor):
         super().__init__()
         self.table_alias = table_alias
 
+    def generic_visit(self, node: ast._Node) -> str:
+        """
+        Nodes without a dedicated visitor method (e.g. navigation paths, lambdas)
+        cannot be expressed in SQL: refuse them instead of emitting ``None``.
+
+        :meta private:
+        """
+        raise exceptions.TypeException("SQL translation", type(node).__name__)
+
     def visit_Identifier(self, node: ast.Identifier) -> str:
         ":meta private:"
         # Double quotes for column names acc SQL Standard
